@@ -89,6 +89,7 @@ blit!(c19_blit_2x2_d16, 2, 2, 16, 18);
 blit!(c19_blit_3x2_d24, 3, 2, 24, 26);
 blit!(c19_blit_3x3_d36, 3, 3, 36, 38);
 blit!(c19_blit_2x3_d8, 2, 3, 8, 10);
+blit!(c19_blit_4x2_d32, 4, 2, 32, 34);
 
 #[kani::proof]
 #[kani::unwind(6)]
